@@ -12,6 +12,7 @@ from xvdriver import DriverDied
 import gen_xml, gen_xslt, xsltcommon as XC
 
 HEAD = gen_xslt.HEAD
+FLAVOUR = os.environ.get('VERIF_FLAVOUR', 'plain')
 
 WRAPPERS = [
     ('element', '<xsl:element name="w">%s</xsl:element>'),
@@ -68,7 +69,7 @@ def failing_stylesheet(r):
 
 def case(ctx, idx, res):
     r = rng_for(ctx.seed, 'c06', idx)
-    d = ctx.drv('plain')
+    d = ctx.drv(FLAVOUR)
     wd = os.path.join(ctx.workdir, 'c06')
     os.makedirs(wd, exist_ok=True)
     # material of the history
@@ -206,6 +207,9 @@ def case(ctx, idx, res):
                     # a failing transformation through a byte target may have delivered a prefix; it must be a prefix of ... nothing to compare
                 else:
                     res.count('identical_outputs')
+    except DriverDied as e:
+        e.request = dict(e.request or {}, history=' || '.join(trail), sheets=' ||| '.join('%d: %s' % (i, sh[1]) for i, sh in enumerate(sheets)))
+        raise
     finally:
         try:
             d.call(cmd='tdel', t=T)
@@ -224,8 +228,8 @@ def main():
                 'grouping-separator error, element inside attribute, unserializable character, compile error) at a generated depth inside 16 kinds of enclosing '
                 'constructs, and callbacks that refuse data after N bytes. A case is one history; distinct = distinct multiset of operation kinds.')
     chk.assumptions = ['a newly created XalanTransformer in the same process is the reference', 'install / uninstall of external functions is not driven (the driver has no such command)']
-    chk.ensure('plain', 'xvdrv')
-    n = 800 if chk.tier == 'quick' else 40000
+    chk.ensure(FLAVOUR, 'xvdrv')
+    n = 3000 if chk.tier == 'quick' else 40000
     chk.run_cases('c06', 'case', range(n))
     chk.finish(min_nontrivial=100, required_stats=('identical_outputs', 'failures_followed', 'status_fail', 'status_ok'))
 
